@@ -2094,6 +2094,8 @@ static int parse_table(struct scanner_s *scanner, cif_value_tp **tablep) {
                     /* recover as for a null key: by parsing the entry's value and dropping it */
                     free(key);
                     key = NULL;
+                    /* (a key given as a text field leaves a stale pointer to the already released key value behind) */
+                    value = NULL;
                 }
             } else if (result == CIF_OK) {
                 result = cif_value_get_item_by_key(table, key, &value);
